@@ -1,2 +1,326 @@
-/- C02 — theorems under construction -/
-import MPilot.Model.Program
+/-
+C02 — model results equal the evaluation of the graph, whatever the file order.
+
+`Sol`: the memo satisfies the defining equations of the graph (the result of each finished command is `compute` applied to the
+results of the commands it reads).  `run_sol`: a successful run establishes it.  `sol_unique`: in an acyclic graph the equations
+have at most one solution — the mathematical evaluation (denotation) of the graph.  Hence the results cannot depend on the
+textual order, on further consumers, or on anything else that leaves the equations of a command unchanged (metadata never
+enters `compute` of the data commands: `DataCmd` has no such field).
+-/
+import MPilot.Props.C01
+
+namespace MPilot.C02
+open MPilot MPilot.C01
+
+variable {Val : Type}
+
+section
+variable (sem : Sem Val) (p : Program)
+
+/-- the value `v` recorded for `n` satisfies the graph's equation at `n` -/
+def SolAt (st : St Val) (n : String) (v : Val) : Prop :=
+  ∃ c vals, p.find? n = some c ∧ List.Forall₂ (fun d x => st.get? d = some x) (sem.pulls c) vals ∧ sem.compute c vals = .ok v
+
+def Sol (st : St Val) : Prop := ∀ n v, st.get? n = some v → SolAt sem p st n v
+
+theorem get?_stable {st st' : St Val} {m : List (String × Val)} (hm : st'.memo = st.memo ++ m) {d : String} {x : Val}
+    (h : st.get? d = some x) : st'.get? d = some x := by
+  unfold St.get? at *
+  rw [hm, List.find?_append]
+  cases hf : st.memo.find? (·.1 == d) with
+  | none => rw [hf] at h; cases h
+  | some kv => rw [hf] at h; simpa using h
+
+theorem solAt_stable {st st' : St Val} {m : List (String × Val)} (hm : st'.memo = st.memo ++ m) {n : String} {v : Val}
+    (h : SolAt sem p st n v) : SolAt sem p st' n v := by
+  obtain ⟨c, vals, hc, hf, hcomp⟩ := h
+  exact ⟨c, vals, hc, hf.imp (fun _ _ hx => get?_stable hm hx), hcomp⟩
+
+theorem get?_append_new {st : St Val} {n : String} {v : Val} {k : String} {x : Val}
+    (h : ({ memo := st.memo ++ [(n, v)], log := st.log } : St Val).get? k = some x) (hn : n ∉ names st) :
+    (st.get? k = some x) ∨ (k = n ∧ x = v) := by
+  unfold St.get? at *
+  rw [List.find?_append] at h
+  cases hf : st.memo.find? (·.1 == k) with
+  | none =>
+    rw [hf] at h
+    right
+    simp only [Option.none_or, List.find?_cons, List.find?_nil] at h
+    by_cases hk : n == k
+    · simp only [hk] at h
+      exact ⟨(beq_iff_eq.mp hk).symm, by simpa using h.symm⟩
+    · simp [hk] at h
+  | some kv => rw [hf] at h; left; simpa using h
+
+variable (r : String → Nat)
+
+/-- reading loop: the values handed to the body are the memoised results of what it reads, and `Sol` is maintained -/
+theorem pull_sol (fuel : Nat) (hr : Ranked sem p r)
+    (ih : ∀ O st n st', InvO sem p O st → Sol sem p st → runCmd sem p fuel st n = (st', none) → Sol sem p st')
+    (O : List String) :
+    ∀ (ds : List String) (s : St Val) (acc : List Val) (s' : St Val) (vals : List Val), InvO sem p O s → Sol sem p s →
+      runCmd.pull sem p fuel ds s acc = (s', .ok vals) →
+      Sol sem p s' ∧ ∃ vs, vals = acc.reverse ++ vs ∧ List.Forall₂ (fun d x => s'.get? d = some x) ds vs := by
+  intro ds
+  induction ds with
+  | nil =>
+    intro s acc s' vals _ hsol h
+    unfold runCmd.pull at h
+    injection h with h1 h2; subst h1; injection h2 with h2; subst h2
+    exact ⟨hsol, [], by simp, .nil⟩
+  | cons d ds ihd =>
+    intro s acc s' vals hinv hsol h
+    unfold runCmd.pull at h
+    cases hrun : runCmd sem p fuel s d with
+    | mk s1 oe =>
+      rw [hrun] at h
+      cases oe with
+      | some e => simp at h
+      | none =>
+        simp only at h
+        obtain ⟨step1, _⟩ := runCmd_ok sem p r hr fuel O s d s1 hinv hrun
+        have hsol1 := ih O s d s1 hinv hsol hrun
+        cases hget : s1.get? d with
+        | none => rw [hget] at h; simp at h
+        | some v =>
+          rw [hget] at h
+          simp only at h
+          obtain ⟨hsol', vs, hvs, hf⟩ := ihd s1 (v :: acc) s' vals step1.inv hsol1 h
+          obtain ⟨step2, _⟩ := pull_ok sem p r fuel (fun O st n st' hi hrn => runCmd_ok sem p r hr fuel O st n st' hi hrn) O
+            (ds.foldl (fun b x => max b (r x + 1)) 0 + 1) ds s1 (v :: acc) s' vals (by
+              intro x hx
+              have : ∀ (l : List String) (b : Nat), x ∈ l → r x < l.foldl (fun b y => max b (r y + 1)) b := by
+                intro l
+                induction l with
+                | nil => intro b hx; cases hx
+                | cons y t iht =>
+                  intro b hx
+                  rw [List.foldl_cons]
+                  rcases List.mem_cons.mp hx with rfl | hx
+                  · have mono : ∀ (l : List String) (b : Nat), b ≤ l.foldl (fun b y => max b (r y + 1)) b := by
+                      intro l; induction l with
+                      | nil => intro b; exact Nat.le_refl _
+                      | cons z t ihz => intro b; rw [List.foldl_cons]; exact Nat.le_trans (Nat.le_max_left _ _) (ihz _)
+                    have := mono t (max b (r x + 1))
+                    have h2 : r x + 1 ≤ max b (r x + 1) := Nat.le_max_right _ _
+                    omega
+                  · exact iht _ hx
+              have := this ds 0 hx
+              omega) step1.inv h
+          obtain ⟨m2, hm2, _⟩ := step2.memoExt
+          refine ⟨hsol', v :: vs, by rw [hvs]; simp, .cons (get?_stable hm2 hget) hf⟩
+
+/-- a successful `Command.run` maintains `Sol` -/
+theorem runCmd_sol (hr : Ranked sem p r) :
+    ∀ (fuel : Nat) (O : List String) (st : St Val) (n : String) (st' : St Val), InvO sem p O st → Sol sem p st →
+      runCmd sem p fuel st n = (st', none) → Sol sem p st' := by
+  intro fuel
+  induction fuel with
+  | zero => intro O st n st' _ _ h; unfold runCmd at h; simp at h
+  | succ fuel ih =>
+    intro O st n st' hinv hsol h
+    have hok := runCmd_ok sem p r hr (fuel + 1) O st n st' hinv h
+    unfold runCmd at h
+    by_cases hmemo : (st.get? n).isSome = true
+    · rw [if_pos hmemo] at h; injection h with h1 _; subst h1; exact hsol
+    · rw [if_neg hmemo] at h
+      have hnot : n ∉ names st := fun hm => hmemo ((get?_isSome_iff st n).mpr hm)
+      cases hfind : p.find? n with
+      | none => rw [hfind] at h; simp at h
+      | some c =>
+        rw [hfind] at h
+        simp only at h
+        cases hval : validateParams (mkCtx sem p st) c with
+        | error e => rw [hval] at h; simp at h
+        | ok u =>
+          rw [hval] at h
+          simp only at h
+          have hinv1 : InvO sem p (n :: O) { memo := st.memo, log := st.log ++ [Ev.start n] } := by
+            refine ⟨hinv.nodup, ?_, ?_, hinv.ordered⟩
+            · show finishes (st.log ++ [Ev.start n]) = names st
+              rw [finishes_append, hinv.fin]; simp [finishes]
+            · show (starts (st.log ++ [Ev.start n])).Perm (finishes (st.log ++ [Ev.start n]) ++ n :: O)
+              rw [starts_append, finishes_append]
+              have e1 : starts [Ev.start n] = [n] := rfl
+              have e2 : finishes [Ev.start n] = [] := rfl
+              rw [e1, e2, List.append_nil]
+              exact (hinv.bal.append_right [n]).trans (by
+                rw [List.append_assoc]
+                exact List.Perm.append_left _ (List.perm_append_comm.trans (by simp)))
+          have hsol1 : Sol sem p ({ memo := st.memo, log := st.log ++ [Ev.start n] } : St Val) := by
+            intro k x hk; exact hsol k x hk
+          cases hpull : runCmd.pull sem p fuel (sem.pulls c) { memo := st.memo, log := st.log ++ [Ev.start n] } [] with
+          | mk s2 ev =>
+            rw [hpull] at h
+            cases ev with
+            | error e => simp at h
+            | ok vals =>
+              simp only at h
+              cases hcomp : sem.compute c vals with
+              | error e => rw [hcomp] at h; simp at h
+              | ok v =>
+                rw [hcomp] at h
+                simp only at h
+                injection h with h1 _; subst h1
+                obtain ⟨hsol2, vs, hvs, hf⟩ := pull_sol sem p r fuel hr ih (n :: O) (sem.pulls c) _ [] s2 vals hinv1 hsol1 hpull
+                simp only [List.reverse_nil, List.nil_append] at hvs
+                subst hvs
+                obtain ⟨step2, _⟩ := pull_ok sem p r fuel (fun O st n st' hi hrn => runCmd_ok sem p r hr fuel O st n st' hi hrn)
+                  (n :: O) (r n) (sem.pulls c) _ [] s2 vals (fun d hd => hr n c hfind d hd) hinv1 hpull
+                obtain ⟨m, hm, hmr⟩ := step2.memoExt
+                have hn2 : n ∉ names s2 := by
+                  have : names s2 = names st ++ m.map (·.1) := by simp [names, hm]
+                  rw [this]
+                  intro hmem
+                  rcases List.mem_append.mp hmem with hmem | hmem
+                  · exact hnot hmem
+                  · exact absurd (hmr n hmem) (Nat.lt_irrefl _)
+                have hstab : ∀ {d : String} {x : Val}, s2.get? d = some x →
+                    ({ memo := s2.memo ++ [(n, v)], log := s2.log ++ [Ev.finish n] } : St Val).get? d = some x :=
+                  fun hx => get?_stable (m := [(n, v)]) rfl hx
+                intro k x hk
+                have hk' : ({ memo := s2.memo ++ [(n, v)], log := s2.log } : St Val).get? k = some x := hk
+                rcases get?_append_new hk' hn2 with hold | ⟨rfl, rfl⟩
+                · exact solAt_stable sem p (m := [(n, v)]) rfl (hsol2 k x hold)
+                · exact ⟨c, vals, hfind, hf.imp (fun _ _ hx => hstab hx), hcomp⟩
+
+theorem go_sol (hr : Ranked sem p r) :
+    ∀ (leaves : List PCmd) (st st' : St Val), InvO sem p [] st → Sol sem p st → run.go sem p leaves st = (st', none) → Sol sem p st' := by
+  intro leaves
+  induction leaves with
+  | nil => intro st st' _ hsol h; unfold run.go at h; injection h with h1 _; subst h1; exact hsol
+  | cons c rest ih =>
+    intro st st' hinv hsol h
+    unfold run.go at h
+    cases hrun : runCmd sem p (p.cmds.length + 1) st c.resultName with
+    | mk s1 oe =>
+      rw [hrun] at h
+      cases oe with
+      | some e => simp at h
+      | none =>
+        simp only at h
+        obtain ⟨step1, _⟩ := runCmd_ok sem p r hr _ [] st c.resultName s1 hinv hrun
+        exact ih s1 st' step1.inv (runCmd_sol sem p r hr _ [] st c.resultName s1 hinv hsol hrun) h
+
+/-- **the run loop computes a solution of the graph's equations** -/
+theorem run_sol (hr : Ranked sem p r) (st st' : St Val) (hinv : InvO sem p [] st) (hsol : Sol sem p st)
+    (h : run sem p st = (st', none)) : Sol sem p st' := by
+  unfold run at h
+  split at h
+  · simp at h
+  · split at h
+    · simp at h
+    · exact go_sol sem p r hr _ st st' hinv hsol h
+
+theorem sol_init : Sol sem p ({ memo := [], log := [] } : St Val) := by
+  intro n v h; simp [St.get?] at h
+
+end
+
+/-- **uniqueness of the evaluation.**  Two programs that agree (same command, same reads, same computation) on a set `S` of result names
+closed under "reads" assign the same value to every name of `S`, in any two states that satisfy their equations. -/
+theorem sol_unique (sem : Sem Val) (p1 p2 : Program) (r : String → Nat) (hr : Ranked sem p1 r) (S : String → Prop)
+    (hagree : ∀ n, S n → p1.find? n = p2.find? n)
+    (hclosed : ∀ n c, S n → p1.find? n = some c → ∀ d ∈ sem.pulls c, S d)
+    (st1 st2 : St Val) (h1 : Sol sem p1 st1) (h2 : Sol sem p2 st2) :
+    ∀ (k : Nat) (n : String), r n < k → S n → ∀ v1 v2, st1.get? n = some v1 → st2.get? n = some v2 → v1 = v2 := by
+  intro k
+  induction k with
+  | zero => intro n hk; omega
+  | succ k ih =>
+    intro n hk hS v1 v2 hg1 hg2
+    obtain ⟨c1, vals1, hc1, hf1, hcomp1⟩ := h1 n v1 hg1
+    obtain ⟨c2, vals2, hc2, hf2, hcomp2⟩ := h2 n v2 hg2
+    have hc : c1 = c2 := by
+      have := hagree n hS; rw [hc1, hc2] at this; injection this
+    subst hc
+    have hvals : vals1 = vals2 := by
+      have hall : ∀ d ∈ sem.pulls c1, r d < k ∧ S d := fun d hd =>
+        ⟨by have := hr n c1 hc1 d hd; omega, hclosed n c1 hS hc1 d hd⟩
+      clear hcomp1 hcomp2
+      generalize sem.pulls c1 = ds at hf1 hf2 hall
+      induction hf1 generalizing vals2 with
+      | nil => cases hf2; rfl
+      | @cons d x ds xs hx _ ihf =>
+        cases hf2 with
+        | @cons _ y _ ys hy hf2' =>
+          have hd := hall d (List.mem_cons_self ..)
+          rw [ih d hd.1 hd.2 x y hx hy, ihf ys hf2' fun e he => hall e (List.mem_cons_of_mem _ he)]
+    rw [hvals, hcomp2] at hcomp1
+    injection hcomp1 with hcomp1
+    exact hcomp1.symm
+
+/-- lookups by result name do not depend on the order of the commands when result names are distinct -/
+theorem find?_perm {l l' : List PCmd} (hp : l.Perm l') (hnd : (l.map (·.resultName)).Nodup) (n : String) :
+    l.find? (·.resultName == n) = l'.find? (·.resultName == n) := by
+  have hnd' : (l'.map (·.resultName)).Nodup := (hp.map _).nodup_iff.mp hnd
+  have key : ∀ (L : List PCmd), (L.map (·.resultName)).Nodup → ∀ c, (L.find? (·.resultName == n) = some c ↔ c ∈ L ∧ c.resultName = n) := by
+    intro L
+    induction L with
+    | nil => intro _ c; simp
+    | cons a t iht =>
+      intro hN c
+      simp only [List.map_cons, List.nodup_cons] at hN
+      simp only [List.find?_cons]
+      by_cases ha : a.resultName == n
+      · simp only [ha, Option.some.injEq, List.mem_cons]
+        constructor
+        · rintro rfl; exact ⟨Or.inl rfl, beq_iff_eq.mp ha⟩
+        · rintro ⟨hc | hc, hn⟩
+          · exact hc.symm
+          · exfalso; apply hN.1
+            rw [beq_iff_eq.mp ha, ← hn]
+            exact List.mem_map.mpr ⟨c, hc, rfl⟩
+      · simp only [ha]
+        rw [iht hN.2 c]
+        constructor
+        · rintro ⟨hc, hn⟩; exact ⟨List.mem_cons_of_mem _ hc, hn⟩
+        · rintro ⟨hc, hn⟩
+          rcases List.mem_cons.mp hc with rfl | hc
+          · exact absurd (beq_iff_eq.mpr hn) ha
+          · exact ⟨hc, hn⟩
+  cases h1 : l.find? (·.resultName == n) with
+  | none =>
+    cases h2 : l'.find? (·.resultName == n) with
+    | none => rfl
+    | some c =>
+      have := (key l' hnd' c).mp h2
+      have h3 := (key l hnd c).mpr ⟨hp.mem_iff.mpr this.1, this.2⟩
+      rw [h1] at h3; cases h3
+  | some c =>
+    have := (key l hnd c).mp h1
+    exact ((key l' hnd' c).mpr ⟨hp.mem_iff.mp this.1, this.2⟩).symm
+
+/-- **C02 (order independence).**  Two command files that contain the same commands in different orders (distinct result names,
+acyclic references) and both run successfully give every command the same result. -/
+theorem results_order_independent (sem : Sem Val) (p p' : Program) (r : String → Nat) (hperm : p.cmds.Perm p'.cmds)
+    (hnd : (p.cmds.map (·.resultName)).Nodup) (hr : Ranked sem p r)
+    (st st' : St Val) (h : run sem p { memo := [], log := [] } = (st, none)) (h' : run sem p' { memo := [], log := [] } = (st', none)) :
+    ∀ n v v', st.get? n = some v → st'.get? n = some v' → v = v' := by
+  have hfind : ∀ n, p.find? n = p'.find? n := fun n => find?_perm hperm hnd n
+  have hr' : Ranked sem p' r := fun n c hc d hd => hr n c (by rw [hfind n]; exact hc) d hd
+  have s1 := run_sol sem p r hr _ st (inv_init sem p) (sol_init sem p) h
+  have s2 := run_sol sem p' r hr' _ st' (inv_init sem p') (sol_init sem p') h'
+  intro n v v' hv hv'
+  exact sol_unique sem p p' r hr (fun _ => True) (fun n _ => hfind n) (fun _ _ _ _ _ _ => trivial) st st' s1 s2 (r n + 1) n
+    (Nat.lt_succ_self _) trivial v v' hv hv'
+
+/-- **C02 (other consumers are irrelevant).**  Adding commands to a model (further consumers of intermediate results, or anything else
+with fresh result names) does not change the result of any command of the original model. -/
+theorem results_unaffected_by_added_commands (sem : Sem Val) (p p' : Program) (r r' : String → Nat)
+    (hr : Ranked sem p r) (hr' : Ranked sem p' r')
+    (hext : ∀ n c, p.find? n = some c → p'.find? n = some c)
+    (hinside : ∀ n c, p.find? n = some c → ∀ d ∈ sem.pulls c, (p.find? d).isSome = true)
+    (st st' : St Val) (h : run sem p { memo := [], log := [] } = (st, none)) (h' : run sem p' { memo := [], log := [] } = (st', none)) :
+    ∀ n v v', (p.find? n).isSome = true → st.get? n = some v → st'.get? n = some v' → v = v' := by
+  have s1 := run_sol sem p r hr _ st (inv_init sem p) (sol_init sem p) h
+  have s2 := run_sol sem p' r' hr' _ st' (inv_init sem p') (sol_init sem p') h'
+  intro n v v' hn hv hv'
+  refine sol_unique sem p p' r hr (fun k => (p.find? k).isSome = true) ?_ ?_ st st' s1 s2 (r n + 1) n (Nat.lt_succ_self _) hn v v' hv hv'
+  · intro k hk
+    obtain ⟨c, hc⟩ := Option.isSome_iff_exists.mp hk
+    rw [hc, hext k c hc]
+  · intro k c _ hc d hd
+    exact hinside k c hc d hd
+
+end MPilot.C02
